@@ -8,6 +8,8 @@
   F   reaction framing: role slices of ReactionContainer.unpack / pack_len for all role counts 0..255
 """
 import ast
+from vlib.env import Unanchored
+import copy
 import itertools
 import types
 
@@ -432,6 +434,9 @@ class SymSeq:
     def __init__(self, n):
         self.n = n
 
+    def append(self, x):
+        pass            # the length is fixed by the contract's assumption on the loop (see _framing_cases)
+
     def __getitem__(self, s):
         if not isinstance(s, slice) or s.step is not None:
             raise TypeError('SymSeq supports plain slices only')
@@ -454,16 +459,25 @@ def _framing_cases():
     out = []
     for fname, order in (('unpack', 'cls'), ('pack_len', 'tuple')):
         f = regions.find_function(tree, f'ReactionContainer.{fname}')
-        ret = [s for s in f.body if isinstance(s, ast.Return)][-1]
+        # the tail of the function: every top-level statement after the loop that reads the molecules (locals introduced there included)
+        fors = [i for i, s_ in enumerate(f.body) if isinstance(s_, ast.For)]
+        if not fors or not isinstance(f.body[-1], ast.Return):
+            raise Unanchored(f'ReactionContainer.{fname}: molecule loop followed by a return not found')
+        tail = [copy.deepcopy(s_) for s_ in f.body[fors[-1] + 1:]]
+        fd = ast.FunctionDef(name='_tail', args=ast.arguments(posonlyargs=[], args=[ast.arg(a_) for a_ in ('molecules', 'reactants', 'reagents', 'products', 'cls', 'data', 'shift')],
+                                                              kwonlyargs=[], kw_defaults=[], defaults=[]), body=tail, decorator_list=[], type_params=[])
+        m_ = ast.Module([fd], [])
+        ast.fix_missing_locations(m_)
+        g_ = dict(vars(rx))
+        exec(compile(m_, env.repo_path(RX), 'exec'), g_)
+        tail_fn = g_['_tail']
         dom = []
         r, g, pp = (sym_int(k, 0, 255, dom) for k in ('reactants', 'reagents', 'products'))
         total = SymInt(r.z + g.z + pp.z)
-        expr = ast.Expression(ret.value)
-        ast.fix_missing_locations(expr)
-        code = compile(expr, env.repo_path(RX), 'eval')
 
-        def fn(code=code, r=r, g=g, pp=pp, total=total):
-            return eval(code, dict(vars(rx)), dict(molecules=SymSeq(total), reactants=r, reagents=g, products=pp, cls=lambda a, b, c: (a, c, b)))
+        def fn(tail_fn=tail_fn, r=r, g=g, pp=pp, total=total):
+            # molecules: a sequence of exactly reactants + reagents + products items (what the loop, and pack_len's final append, produce)
+            return tail_fn(SymSeq(total), r, g, pp, (lambda a, b, c: (a, c, b)), bytes(8), 0)
 
         def ensures(val, r=r, g=g, pp=pp):
             (rl, rh), (gl, gh), (pl, ph) = val        # normalised to (reactants, reagents, products) order
